@@ -33,7 +33,28 @@ _PCT = re.compile(r"%(?:\((?P<key>[^)]*)\))?(?P<flags>[-#0 +]*)(?P<width>\*|\d+)
 _FMT = re.compile(r"\{\{|\}\}|\{(?P<field>[^{}!:]*)(?:!(?P<conv>[sra]))?(?::(?P<spec>[^{}]*))?\}")
 
 
+def _fold(p, isb=None):
+    """A hole filled with a constant is literal text."""
+    if isinstance(p, Hole) and isinstance(p.expr, ast.Constant) and p.spec is None:
+        v = p.expr.value
+        if isinstance(v, str) and p.conv in (None, "s") and isb is not True:
+            return Lit(v)
+        if isinstance(v, bytes) and p.conv in (None, "s") and isb is True:
+            return Lit(v)
+        if isinstance(v, int) and not isinstance(v, bool) and p.conv in (None, "s", "d") and isb is not True:
+            return Lit(str(v))
+        if isinstance(v, int) and not isinstance(v, bool) and p.conv == "d" and isb is True:
+            return Lit(str(v).encode())
+    return p
+
+
 def _merge(parts):
+    isb = None
+    for p in parts:
+        if isinstance(p, Lit):
+            isb = isinstance(p.v, bytes)
+            break
+    parts = [_fold(p, isb) for p in parts]
     out = []
     for p in parts:
         if isinstance(p, Lit) and out and isinstance(out[-1], Lit) and type(out[-1].v) is type(p.v):
